@@ -19,6 +19,10 @@ func (g *rangeGen) generate() {
 
 	g.genComment()
 	g.P("func (x *", g.typeName, ") Range(f func(", protoreflectPkg.Ident("FieldDescriptor"), ", ", protoreflectPkg.Ident("Value"), ") bool) {")
+	// a nil receiver is the read-only empty message: read it as the zero value
+	g.P("if x == nil {")
+	g.P("x = new(", g.typeName, ")")
+	g.P("}")
 	for _, field := range g.message.Fields {
 		g.genField(field)
 	}
